@@ -22,11 +22,11 @@ from .translate import Unsupported
 PATH = "opendsm/common/metrics.py"
 CLASS = "BaselineMetrics"
 # statistics translated, in any order (dependencies are sorted out below)
-DERIVED = ["ddof", "ddof_autocorr", "nmae", "pnmae", "mbe", "nmbe", "pnmbe", "sse", "mse", "rmse", "rmse_adj",
+DERIVED = ["n_prime", "ddof", "ddof_autocorr", "nmae", "pnmae", "mbe", "nmbe", "pnmbe", "sse", "mse", "rmse", "rmse_adj",
            "rmse_autocorr_adj", "cvrmse", "cvrmse_adj", "cvrmse_autocorr_adj", "pnrmse", "pnrmse_adj",
            "pnrmse_autocorr_adj", "r_squared_adj"]
 # fields of EEM.Model.MetricBase (hand-written structure); `self.<col>.<stat>` is `<col>_<stat>`
-BASE = ["n", "num_model_params", "min_denominator", "mae", "r_squared", "n_prime",
+BASE = ["n", "num_model_params", "min_denominator", "mae", "r_squared", "residuals_autocorr1",
         "observed_mean", "observed_iqr", "residuals_mean", "residuals_sum_squared"]
 COLUMNS = ("observed", "predicted", "residuals")
 
@@ -86,6 +86,16 @@ class _Tr:
             if lo or ro:
                 self.fail(e, "arithmetic on an optional value")
             return f"({l} {ops[type(e.op)]} {r})", False
+        if isinstance(e, ast.Call) and isinstance(e.func, ast.Name) and e.func.id == "float" and len(e.args) == 1 and not e.keywords:
+            return self.expr(e.args[0], env)                                  # float(x) of a float expression
+        if (isinstance(e, ast.Call) and isinstance(e.func, ast.Attribute) and e.func.attr == "autocorr" and not e.args
+                and [(k.arg, ast.unparse(k.value)) for k in e.keywords] == [("lag", "1")]
+                and ast.unparse(e.func.value) in {"self._df['%s']" % c for c in COLUMNS}):
+            col = e.func.value.slice.value
+            f = f"{col}_autocorr1"
+            if f in BASE:
+                return f"b.{f}", False
+            self.fail(e, "autocorrelation that is not a base field")
         if isinstance(e, ast.Call) and isinstance(e.func, ast.Name) and e.func.id == "_safe_divide" and len(e.args) == 3 and not e.keywords:
             parts = []
             for a in e.args:
@@ -135,6 +145,23 @@ class _Tr:
                     old = env[v][0]
                     ln = old + "'"
                     lets.append(f"let {ln} := if Arith.ltb {old} {bound} then {new} else {old}\n  ")
+                    env[v] = (ln, False)
+                    i += 1
+                    continue
+                # finiteness repair:  if not np.isfinite(_v): _v = c      (x is finite  <=>  x - x == 0)
+                if (isinstance(st.test, ast.UnaryOp) and isinstance(st.test.op, ast.Not) and isinstance(st.test.operand, ast.Call)
+                        and ast.unparse(st.test.operand.func) == "np.isfinite" and len(st.test.operand.args) == 1
+                        and isinstance(st.test.operand.args[0], ast.Name) and st.test.operand.args[0].id in env
+                        and not env[st.test.operand.args[0].id][1]
+                        and isinstance(inner, ast.Assign) and len(inner.targets) == 1 and isinstance(inner.targets[0], ast.Name)
+                        and inner.targets[0].id == st.test.operand.args[0].id):
+                    v = inner.targets[0].id
+                    new, no = self.expr(inner.value, env)
+                    if no:
+                        self.fail(st, "optional value in a finiteness repair")
+                    old = env[v][0]
+                    ln = old + "'"
+                    lets.append(f"let {ln} := if Arith.eqb ({old} - {old}) (0 : α) then {old} else {new}\n  ")
                     env[v] = (ln, False)
                     i += 1
                     continue
